@@ -109,6 +109,23 @@ func init() {
 				{File: "internal/flood/flood.go", Old: "\tf.sleepCmdMu.Lock()\n\tdefer f.sleepCmdMu.Unlock()\n\n\tif existing, ok := f.sleepCmdSeenCache[key]; ok {\n\t\tif existing.SeenFrom != fromPeer {\n\t\t\texisting.SeenAt = time.Now()\n\t\t}\n\t\treturn false\n\t}\n", New: "\tif f.seenSleepCmd(key) {\n\t\treturn false\n\t}\n\tf.sleepCmdMu.Lock()\n\tdefer f.sleepCmdMu.Unlock()\n"},
 				{File: "internal/flood/flood.go", Old: "// HandleSleepCommand processes an incoming SLEEP_COMMAND frame.", New: "func (f *Flooder) seenSleepCmd(key SleepCommandKey) bool {\n\tf.sleepCmdMu.RLock()\n\tdefer f.sleepCmdMu.RUnlock()\n\t_, ok := f.sleepCmdSeenCache[key]\n\treturn ok\n}\n\n// HandleSleepCommand processes an incoming SLEEP_COMMAND frame."},
 			}},
+			{Name: "rewrite: self-in-path scan through a table predicate, a route predicate and slices.Index; upsert in a package function", Edits: []Edit{
+				{File: "internal/routing/forward.go", Old: "\t// Check for routing loops (is our ID in the path?)\n\tfor _, id := range route.Path {\n\t\tif id == t.localID {\n\t\t\treturn false // Loop detected\n\t\t}\n\t}\n", New: "\tif t.pathHasLoop(route.Path) {\n\t\treturn false\n\t}\n"},
+				{File: "internal/routing/forward.go", Old: "// sortRoutes sorts routes for a key by metric (lowest first).\nfunc (t *ForwardTable) sortRoutes(", New: "func (t *ForwardTable) pathHasLoop(path []identity.AgentID) bool {\n\tfor _, hop := range path {\n\t\tif hop == t.localID {\n\t\t\treturn true\n\t\t}\n\t}\n\treturn false\n}\n\n// sortRoutes sorts routes for a key by metric (lowest first).\nfunc (t *ForwardTable) sortRoutes("},
+				{File: "internal/routing/agent.go", Old: "\t// Check for routing loops (is our ID in the path?)\n\tfor _, id := range route.Path {\n\t\tif id == t.localID {\n\t\t\treturn false // Loop detected\n\t\t}\n\t}\n", New: "\tif route.traverses(t.localID) {\n\t\treturn false\n\t}\n"},
+				{File: "internal/routing/agent.go", Old: "// sortRoutes sorts routes for an agent by metric (lowest first).", New: "func (r *AgentRoute) traverses(agentID identity.AgentID) bool {\n\tfor _, id := range r.Path {\n\t\tif id == agentID {\n\t\t\treturn true\n\t\t}\n\t}\n\treturn false\n}\n\n// sortRoutes sorts routes for an agent by metric (lowest first)."},
+				{File: "internal/routing/table.go", Old: "\t// Check for routing loops (is our ID in the path?)\n\tfor _, id := range route.Path {\n\t\tif id == t.localID {\n\t\t\treturn false // Loop detected\n\t\t}\n\t}\n", New: "\tif slices.Index(route.Path, t.localID) != -1 {\n\t\treturn false\n\t}\n"},
+				{File: "internal/routing/table.go", Old: "import (\n", New: "import (\n\t\"slices\"\n"},
+				{File: "internal/routing/table.go", Old: "\t// New route from this origin\n\tcloned := route.Clone()\n\tcloned.LastUpdate = now\n\tt.routes[key] = append(t.routes[key], cloned)\n\tt.sortRoutes(key)\n\treturn true\n}\n", New: "\t// New route from this origin\n\tappendRoute(t.routes, key, route, now)\n\tt.sortRoutes(key)\n\treturn true\n}\n\nfunc appendRoute(routes map[string][]*Route, key string, route *Route, now time.Time) {\n\tcloned := route.Clone()\n\tcloned.LastUpdate = now\n\troutes[key] = append(routes[key], cloned)\n}\n"},
+			}},
+			{Name: "table predicate looks for the next hop instead of the own id", ExpectRule: "C11.R5", ExpectKey: "(*routing.ForwardTable).AddRoute", Edits: []Edit{
+				{File: "internal/routing/forward.go", Old: "\t// Check for routing loops (is our ID in the path?)\n\tfor _, id := range route.Path {\n\t\tif id == t.localID {\n\t\t\treturn false // Loop detected\n\t\t}\n\t}\n", New: "\tif t.pathHasLoop(route.Path, route.NextHop) {\n\t\treturn false\n\t}\n"},
+				{File: "internal/routing/forward.go", Old: "// sortRoutes sorts routes for a key by metric (lowest first).\nfunc (t *ForwardTable) sortRoutes(", New: "func (t *ForwardTable) pathHasLoop(path []identity.AgentID, who identity.AgentID) bool {\n\tfor _, hop := range path {\n\t\tif hop == who {\n\t\t\treturn true\n\t\t}\n\t}\n\treturn false\n}\n\n// sortRoutes sorts routes for a key by metric (lowest first).\nfunc (t *ForwardTable) sortRoutes("},
+			}},
+			{Name: "slices.Index result tested the wrong way round", ExpectRule: "C11.R5", ExpectKey: "(*routing.Table).AddRoute", Edits: []Edit{
+				{File: "internal/routing/table.go", Old: "\t// Check for routing loops (is our ID in the path?)\n\tfor _, id := range route.Path {\n\t\tif id == t.localID {\n\t\t\treturn false // Loop detected\n\t\t}\n\t}\n", New: "\tif slices.Index(route.Path, t.localID) == -1 {\n\t\treturn false\n\t}\n"},
+				{File: "internal/routing/table.go", Old: "import (\n", New: "import (\n\t\"slices\"\n"},
+			}},
 			{Name: "rewrite: nested positive form, negated membership, swapped operands", Edits: []Edit{
 				{File: "internal/flood/flood.go", Old: "\t\tif peerID == fromPeer || containsAgent(seenBy, peerID) {\n\t\t\tcontinue\n\t\t}\n\t\tif err := f.sender.SendToPeer(peerID, frame); err != nil {\n\t\t\tf.logger.Debug(logMsg,\n\t\t\t\tlogging.KeyPeerID, peerID.ShortString(),\n\t\t\t\tlogging.KeyError, err)\n\t\t}", New: "\t\tif fromPeer != peerID && !containsAgent(seenBy, peerID) {\n\t\t\tif err := f.sender.SendToPeer(peerID, frame); err != nil {\n\t\t\t\tf.logger.Debug(logMsg,\n\t\t\t\t\tlogging.KeyPeerID, peerID.ShortString(),\n\t\t\t\t\tlogging.KeyError, err)\n\t\t\t}\n\t\t}"},
 				{File: "internal/flood/flood.go", Old: "\t// Check loop detection\n\tif containsAgent(seenBy, f.localID) {\n\t\treturn false\n\t}\n", New: "\tself := f.localID\n\tif inList := containsAgent(seenBy, self); inList == true {\n\t\treturn false\n\t}\n"},
